@@ -15,6 +15,7 @@ package chainimport
 
 import (
 	"bytes"
+	"encoding/json"
 	"fmt"
 	"math/big"
 	"sort"
@@ -22,6 +23,7 @@ import (
 	"sync"
 
 	"github.com/youchainhq/go-youchain/common"
+	"github.com/youchainhq/go-youchain/consensus"
 	"github.com/youchainhq/go-youchain/consensus/solo"
 	"github.com/youchainhq/go-youchain/core"
 	"github.com/youchainhq/go-youchain/core/rawdb"
@@ -297,8 +299,15 @@ func decodeLookup(v []byte) (common.Hash, uint64, uint64) {
 	return rawdb.ReadTxLookupEntry(tmp, common.Hash{})
 }
 
+// engineName selects the engine of the chains under test: "solo" or "ucon" (solo with ucon's header dispatch, uconlike.go).
+var engineName = "solo"
+
 func newChain(db youdb.Database) (*core.BlockChain, error) {
-	return core.NewBlockChain(db, solo.NewSolo(), new(event.TypeMux), params.ArchiveNode, local.FakeDetailDB())
+	var eng consensus.Engine = solo.NewSolo()
+	if engineName == "ucon" {
+		eng = newUconLike()
+	}
+	return core.NewBlockChain(db, eng, new(event.TypeMux), params.ArchiveNode, local.FakeDetailDB())
 }
 
 func buildFixture() (*fixtureT, error) {
@@ -384,30 +393,59 @@ func buildFixture() (*fixtureT, error) {
 		tx           string
 	}
 	for _, s := range []spec{{"A1", "G", 0xa1, "t1"}, {"A2", "A1", 0xa2, "t2"}, {"A3", "A2", 0xa3, ""},
-		{"B1", "G", 0xb1, "t1"}, {"B2", "B1", 0xb2, ""}, {"B3", "B2", 0xb3, "t3"}} {
+		{"B1", "G", 0xb1, "t1"}, {"B2", "B1", 0xb2, ""}, {"B3", "B2", 0xb3, "t3"}, {"B4", "B3", 0xb4, ""}} {
 		if err := build(s.name, s.parent, s.extra, s.tx); err != nil {
 			return nil, err
 		}
 	}
 	// further blocks: one valid child without transactions for every valid block
-	for i, p := range []string{"G", "A1", "A2", "A3", "B1", "B2", "B3"} {
+	for i, p := range []string{"G", "A1", "A2", "A3", "B1", "B2", "B3", "B4"} {
 		if err := build("F_"+p, p, byte(0xf0+i), ""); err != nil {
 			return nil, err
 		}
 	}
-	// X: a child of A1 whose header claims a state root that execution does not produce
-	if err := build("Xv", "A1", 0xee, ""); err != nil {
+	// invalid blocks: a valid block is built, then ONE header field is falsified (the block hash changes with it)
+	forge := func(name, parentName string, extra byte, mutate func(h *types.Header)) error {
+		if err := build("tmp", parentName, extra, ""); err != nil {
+			return err
+		}
+		v := fx.blocks["tmp"]
+		delete(fx.names, v.Hash())
+		delete(fx.blocks, "tmp")
+		delete(fx.parent, "tmp")
+		fx.order = fx.order[:len(fx.order)-1]
+		h := v.Header()
+		mutate(h)
+		b := types.NewBlockWithHeader(h).WithBody(v.Body())
+		rawdb.WriteBlock(bdb, b) // children (T3) are built on it
+		fx.add(name, parentName, b)
+		return nil
+	}
+	bad := common.Hash{0xba, 0xd0}
+	for _, f := range []struct {
+		name, parent string
+		extra        byte
+		mutate       func(h *types.Header)
+	}{
+		{"X", "A1", 0xe1, func(h *types.Header) { h.Root = bad }},         // state root that execution does not produce
+		{"S2", "B1", 0xe2, func(h *types.Header) { h.Root = bad }},        // the same on the B fork, at a height below A's head
+		{"R3", "B2", 0xe3, func(h *types.Header) { h.ReceiptHash = bad }}, // receipt root
+		{"U4", "B3", 0xe4, func(h *types.Header) { h.GasUsed = 21000 }},   // gas used
+		{"T2", "B1", 0xe5, func(h *types.Header) { h.TxHash = bad }},      // header.TxHash does not match the (empty) body
+		{"V4", "B3", 0xe6, func(h *types.Header) { h.TxHash = bad }},      // the same above A's head
+	} {
+		if err := forge(f.name, f.parent, f.extra, f.mutate); err != nil {
+			return nil, err
+		}
+	}
+	// T2 executes fine (only its transaction root is wrong): valid-looking descendants make that fork the longest
+	if err := build("T3", "T2", 0xe7, ""); err != nil {
 		return nil, err
 	}
-	xv := fx.blocks["Xv"]
-	delete(fx.names, xv.Hash())
-	delete(fx.blocks, "Xv")
-	delete(fx.parent, "Xv")
-	fx.order = fx.order[:len(fx.order)-1]
-	xh := xv.Header()
-	xh.Root = common.Hash{0xba, 0xd0}
-	fx.add("X", "A1", types.NewBlockWithHeader(xh).WithBody(xv.Body()))
-	fx.invalid = []string{"X"}
+	if err := build("T4", "T3", 0xe8, ""); err != nil {
+		return nil, err
+	}
+	fx.invalid = []string{"X", "S2", "R3", "U4", "T2", "T3", "T4", "V4"}
 	return fx, nil
 }
 
@@ -435,7 +473,7 @@ func (fx *fixtureT) treeEvent() map[string]interface{} {
 			txs[n] = append(txs[n], fx.txNames[tx.Hash()])
 		}
 	}
-	return map[string]interface{}{"ev": "tree", "par": par, "num": num, "inv": fx.invalid, "root": root, "txs": txs}
+	return map[string]interface{}{"ev": "tree", "engine": engineName, "par": par, "num": num, "inv": fx.invalid, "root": root, "txs": txs}
 }
 
 // ---------------------------------------------------------------- observation
@@ -516,12 +554,26 @@ func run(env *drive.Env) error {
 		return fmt.Errorf("fixture: %v", err)
 	}
 	maxPoints := env.OptInt("maxpoints", 0) // 0: every crash point
-	var beh [][]string
-	for env.Next(&beh) {
-		if err := fx.behaviour(env, beh, maxPoints); err != nil {
+	// a behaviour is [[names]...] (solo engine) or {"engine":"ucon","offers":[[names]...]}
+	var raw json.RawMessage
+	for env.Next(&raw) {
+		var beh struct {
+			Engine string     `json:"engine"`
+			Offers [][]string `json:"offers"`
+		}
+		if len(raw) > 0 && raw[0] == '[' {
+			beh.Engine = "solo"
+			if err := json.Unmarshal(raw, &beh.Offers); err != nil {
+				return err
+			}
+		} else if err := json.Unmarshal(raw, &beh); err != nil {
 			return err
 		}
-		beh = nil
+		engineName = beh.Engine
+		if err := fx.behaviour(env, beh.Offers, maxPoints); err != nil {
+			return err
+		}
+		raw = nil
 	}
 	return nil
 }
@@ -579,13 +631,25 @@ func (fx *fixtureT) behaviour(env *drive.Env, offers [][]string, maxPoints int) 
 				continue
 			}
 			env.Emit(map[string]interface{}{"ev": "restart", "k": k, "j": j, "after": w.kind, "mode": mode, "ok": true, "obs": fx.observe(bc2, d2)})
-			e1 := bc2.InsertChain(blocks)
-			var e2 error
-			if further != "" {
-				e2 = bc2.InsertChain(types.Blocks{fx.blocks[further]})
-			}
-			env.Emit(map[string]interface{}{"ev": "recovered", "k": k, "j": j, "after": w.kind, "mode": mode, "err1": errClass(e1), "err2": errClass(e2),
-				"further": further, "obs": fx.observe(bc2, d2), "ref": refObs})
+			// "once the interrupted blocks and any one further valid block are imported again": a Go panic of the code under
+			// test while doing so is recorded (the process would die); logging.Crit still ends the driver (see "recovering")
+			env.Emit(map[string]interface{}{"ev": "recovering", "k": k, "j": j, "after": w.kind, "mode": mode})
+			rec := map[string]interface{}{"ev": "recovered", "k": k, "j": j, "after": w.kind, "mode": mode, "further": further, "ref": refObs}
+			func() {
+				defer func() {
+					if r := recover(); r != nil {
+						rec["panic"] = fmt.Sprint(r)
+					}
+				}()
+				e1 := bc2.InsertChain(blocks)
+				var e2 error
+				if further != "" {
+					e2 = bc2.InsertChain(types.Blocks{fx.blocks[further]})
+				}
+				rec["err1"], rec["err2"] = errClass(e1), errClass(e2)
+				rec["obs"] = fx.observe(bc2, d2)
+			}()
+			env.Emit(rec)
 			bc2.Stop()
 		}
 	}
